@@ -86,4 +86,46 @@ example : ∃ p, parse ([1, 7, 0, 25] ++ zeros 16 ++ [1, 5, 97, 98, 99]) [] = .o
 example : ∃ w, marshal ⟨1, 7, zeros 16, [], [⟨1, [97]⟩, ⟨256, [1]⟩, ⟨2, []⟩]⟩ = .ok w := by
   exact (marshal_ok_iff_cond _).2 (by simp [marshalCond, validType])
 
+/-! ### The oracle's acceptance predicate is the specification (second audit, finding 12)
+
+The driver evaluates `wellFormedTLV` (a Bool, `Driver/C01.lean: specAccept`); the acceptance theorem speaks about the
+inductive `WellFormedTLV`.  They are the same predicate. -/
+
+/-- the Bool the driver's oracle evaluates IS the inductive specification -/
+theorem wellFormedTLV_iff (b : Bytes) : wellFormedTLV b = true ↔ WellFormedTLV b := by
+  constructor
+  · intro h
+    induction b using wellFormedTLV.induct with
+    | case1 => exact .nil
+    | case2 x => simp [wellFormedTLV] at h
+    | case3 t l rest hbad => simp [wellFormedTLV, hbad] at h
+    | case4 t l rest hok ih =>
+      have hg : ¬ (l.toNat < 2 ∨ rest.length < l.toNat - 2) := hok
+      rw [wellFormedTLV] at h
+      simp only [hg, if_false] at h
+      have hw := ih h
+      have := WellFormedTLV.cons t l (rest.take (l.toNat - 2)) (rest.drop (l.toNat - 2)) (by omega) (by simp; omega) hw
+      simpa using this
+  · intro h
+    induction h with
+    | nil => simp [wellFormedTLV]
+    | cons t l v rest h2 hv _ ih =>
+      rw [wellFormedTLV]
+      have : ¬ (l.toNat < 2 ∨ (v ++ rest).length < l.toNat - 2) := by simp; omega
+      simp only [this, if_false]
+      have hd : (v ++ rest).drop (l.toNat - 2) = rest := by
+        rw [← hv]; simp
+      rw [hd]; exact ih
+
+/-- … hence `Parse` accepts a datagram exactly when the oracle's Boolean says so -/
+theorem parse_accepts_iff_oracle (b s : Bytes) :
+    (∃ p, parse b s = .ok p) ↔
+      (decide (20 ≤ b.length) && decide (20 ≤ lengthField b) && decide (lengthField b ≤ 4096)
+        && decide (lengthField b ≤ b.length) && wellFormedTLV ((b.take (lengthField b)).drop 20)) = true := by
+  rw [parse_accepts_iff]
+  simp only [Bool.and_eq_true, decide_eq_true_eq, wellFormedTLV_iff]
+  constructor
+  · rintro ⟨a, b, c, d, e⟩; exact ⟨⟨⟨⟨a, b⟩, c⟩, d⟩, e⟩
+  · rintro ⟨⟨⟨⟨a, b⟩, c⟩, d⟩, e⟩; exact ⟨a, b, c, d, e⟩
+
 end RV.C01
